@@ -4,7 +4,8 @@ import os, re, sys, json, time, glob, hashlib, importlib, shutil, subprocess, te
 VERIF = os.path.dirname(os.path.abspath(__file__))
 import kx, vx  # noqa: E402
 
-EVID = os.path.join(VERIF, "evidence")
+# evidence/ is only written by runs against /repo itself; development runs against a scratch worktree (VERIF_REPO) write elsewhere
+EVID = os.path.join(VERIF, "evidence") if os.environ.get("VERIF_REPO", "/repo") == "/repo" else os.path.join(VERIF, "scratch", "evidence_dev")
 REPLAY = os.path.join(VERIF, "replay")
 SCRATCH = os.path.join(VERIF, "scratch")
 KNOWN = os.path.join(VERIF, "known_findings.txt")
@@ -19,6 +20,7 @@ VERUS_UNITS = {
     "proxy": ("units_proxy", ["C18", "C06", "C07", "C10", "C09", "C01"]),
     "misc": ("units_misc", ["C08", "C13", "C14", "C15", "C19", "C05"]),
     "adapters": ("units_adapters", ["C02", "C14", "C11", "C18"]),
+    "gpu": ("units_gpu", ["C01", "C06", "C10"]),
 }
 # which units to run for a property
 VERUS_FOR = {}
